@@ -116,6 +116,12 @@ class Gen(object):
         for i, it in enumerate(items[:-1]):
             if it['raw'].count(b'"') % 2:
                 items[i] = dict(raw=b'Z', kind='unquoted', s=b'Z', n='err')
+        if rng.random() < 0.15:
+            # quoted string without closing quote: runs to the end of the line (blanks, commas, colons included),
+            # so it is the last item of the last statement of its line
+            n = rng.choice([0, 1, 1, 2, 3, 5, 9])
+            txt = bytes(bytearray(rng.choice(bytearray(QUO_CHARS)) for _ in range(n)))
+            items[-1] = dict(raw=self.blanks() + b'"' + txt, kind='openquote', s=txt, n='err')
         kw = rng.choice([b'DATA', b'DATA ', b'DATA  ', b'data '])
         if items[0]['raw'][:1] not in (b' ', b'"', b'') and not kw.endswith(b' '):
             kw += b' '      # DATA.5 / DATAX would be a variable name
@@ -531,6 +537,20 @@ def fixed_cases():
          rd(3, 40, ['E#'], [['E#', 'n', 6]]),
          dict(k=4, line=50, kind='restoreline', target=15, tracked=True, err=[8, 50]),
          rd(5, 60, ['F#'], [], [4, 60])]))
+    out.append(case(
+        [f(t) for t in ['1 ON ERROR GOTO 9000:DIM ER%(9),EL!(9)', '10 DATA 1, "alpha" , "be,ta"  :X=58', '20 DATA "gamma: x ',
+                        '30 Q$="not data": DATA 2,  "d', '40 DATA "", "',
+                        '50 K%=1:A#={N}:B$="{S}":C$="{S}":D$="{S}":READ A#,B$,C$,D$',
+                        '60 K%=2:E#={N}:F$="{S}":G$="{S}":H$="{S}":READ E#,F$,G$,H$',
+                        '70 K%=3:RESTORE 20:K%=4:I$="{S}":J#={N}:READ I$,J#:K%=5:RESTORE 30:K%=6:L#={N}:M#={N}:READ L#,M#',
+                        '100 DONE%=1:END', H]],
+        [rd(1, 50, ['A#', 'B$', 'C$', 'D$'], [['A#', 'n', 1], ['B$', 's', 'alpha'], ['C$', 's', 'be,ta'],
+                                              ['D$', 's', 'gamma: x ']]),
+         rd(2, 60, ['E#', 'F$', 'G$', 'H$'], [['E#', 'n', 2], ['F$', 's', 'd'], ['G$', 's', ''], ['H$', 's', '']]),
+         dict(k=3, line=70, kind='restoreline', target=20, tracked=True, err=None),
+         rd(4, 70, ['I$', 'J#'], [['I$', 's', 'gamma: x '], ['J#', 'n', 2]]),
+         dict(k=5, line=70, kind='restoreline', target=30, tracked=True, err=None),
+         rd(6, 70, ['L#', 'M#'], [['L#', 'n', 2]], [2, 30])]))
     return out
 
 
